@@ -27,13 +27,19 @@
 (*                 SET (without duplicates) is asserted (flag ord).                      *)
 (*   =             unification of rational trees (union-find; always terminates)         *)
 (*   compare/3     standard order (ISO 7.2): Var < Atom < Compound; compounds by arity,  *)
-(*                 name, then arguments left to right. On infinite trees we take the     *)
-(*                 limit of the comparisons of the depth-d truncations, d -> infinity.   *)
-(*                 It coincides with "the first difference in preorder" whenever that    *)
-(*                 exists, it is "=" exactly for bisimilar nodes (checked by TLC), and   *)
-(*                 where the truncated results do not converge (differences of both      *)
-(*                 signs along an infinite leftmost descent) the property defines no     *)
+(*                 name, then arguments left to right, i.e. the sign of the FIRST        *)
+(*                 difference met in preorder. On infinite trees that first difference   *)
+(*                 exists iff the descent "go into the leftmost pair of arguments that   *)
+(*                 are not bisimilar" reaches a pair with different labels (LexCmp);     *)
+(*                 the result is "=" exactly for bisimilar nodes; where the descent runs *)
+(*                 for ever (all differences lie to the right of an infinite leftmost    *)
+(*                 branch, e.g. X = g(X,a) against Y = g(Y,b)) the property defines no   *)
 (*                 answer: the result is "?" = any of < or >.                            *)
+(*                 A second reading, the limit of the comparisons of the depth-d         *)
+(*                 truncations (CmpLimit), is defined more often; TLC checks that it     *)
+(*                 agrees with LexCmp wherever LexCmp is defined, it is not asserted      *)
+(*                 beyond that (the 4-node graphs have pairs where scryer's cut-at-      *)
+(*                 revisit walk and the truncation limit differ, both are defensible).   *)
 (*                 The order of two distinct variables is implementation defined (ISO    *)
 (*                 7.2.1): results are given for every total order vo of the variables.  *)
 (*   copy_term     an isomorphic graph on fresh nodes (Variant, disjoint variables)       *)
@@ -216,6 +222,20 @@ CmpCycle(P, L, vo) == CmpIter(P, L, vo, <<TLCEval([p \in L \X L |-> "="])>>)
 
 CmpLimit(cyc, i, j) ==
   IF \A k \in 1..Len(cyc) : cyc[k][<<i, j>>] = cyc[1][<<i, j>>] THEN cyc[1][<<i, j>>] ELSE "?"
+
+(* the first difference in preorder, where it exists: B = Bisim(P, L), fuel = number of pairs *)
+RECURSIVE LexWalk(_, _, _, _, _, _)
+LexWalk(P, B, vo, i, j, fuel) ==
+  LET lc == LabCmp(P, vo, i, j) IN
+  IF lc # "=" THEN lc
+  ELSE IF <<i, j>> \in B THEN "="
+  ELSE IF fuel = 0 THEN "?"
+  ELSE LET c == CHOOSE c \in 1..Arity(P, i) :
+                  /\ <<Kid(P, i, c), Kid(P, j, c)>> \notin B
+                  /\ \A d \in 1..(c - 1) : <<Kid(P, i, d), Kid(P, j, d)>> \in B
+       IN LexWalk(P, B, vo, Kid(P, i, c), Kid(P, j, c), fuel - 1)
+
+LexCmp(P, L, B, vo, i, j) == LexWalk(P, B, vo, i, j, Cardinality(L) * Cardinality(L))
 
 (* ------------------------------------------------------------------------ copy_term *)
 (* copy of the part reachable from r onto the ids n + K; returns the enlarged graph      *)
